@@ -38,6 +38,14 @@ ldflags_trk := -pthread
 ldflags_tsan := -fsanitize=thread -pthread
 ldflags_plain := -pthread
 
+# harness (check) objects: same instrumentation as the library, except in trk mode where only the library is instrumented
+chkflags_asan := $(flags_asan)
+chkflags_asan-call := $(flags_asan-call)
+chkflags_trk := -O1 -DVF_TRK -pthread
+chkflags_tsan := $(flags_tsan) -DVF_TSAN -pthread
+chkflags_plain := $(flags_plain)
+extra_trk = $(B)/trk/rt/trk_runtime.o
+
 define MODE_RULES
 LIBOBJS_$(1) := $$(addprefix $(B)/$(1)/lib/,$$(addsuffix .o,$(LIBSRC_COMMON) $$(machine_$(1))))
 $(B)/$(1)/lib/%.o: $(SRC)/%.cpp
@@ -49,12 +57,16 @@ $(B)/$(1)/lib.a: $$(LIBOBJS_$(1))
 # harness objects: private headers visible, no access control
 $(B)/$(1)/chk/%.o: src/checks/%.cpp
 	@mkdir -p $$(dir $$@)
-	$(CXX) $(BASEFLAGS) $$(flags_$(1)) -fno-access-control -MMD -MP -c $$< -o $$@
-$(B)/$(1)/%: $(B)/$(1)/chk/%.o $(B)/$(1)/lib.a
+	$(CXX) $(BASEFLAGS) $$(chkflags_$(1)) -fno-access-control -MMD -MP -c $$< -o $$@
+$(B)/$(1)/%: $(B)/$(1)/chk/%.o $(B)/$(1)/lib.a $$(extra_$(1))
 	$(CXX) $$(ldflags_$(1)) -o $$@ $$< $(B)/$(1)/lib.a $$(extra_$(1))
 -include $$(wildcard $(B)/$(1)/lib/*.d) $$(wildcard $(B)/$(1)/chk/*.d)
 endef
 $(foreach m,$(MODES),$(eval $(call MODE_RULES,$(m))))
+
+$(B)/trk/rt/trk_runtime.o: src/sched/trk_runtime.cpp src/sched/trk.h
+	@mkdir -p $(dir $@)
+	$(CXX) -std=c++14 -O2 -g -fno-omit-frame-pointer -fno-builtin -c $< -o $@
 
 .SECONDARY:
 # convenience: `make build/asan/x` means `make $(B)/asan/x` (dependency files use the absolute spelling)
